@@ -684,6 +684,8 @@ func (p c3Prog) canonicalModes(modes string) string {
 func c3CSETag(p c3Prog) string {
 	type asg struct {
 		t, e   string
+		norm   string // e with the operands of every binary node ordered
+		top    string // the top operator ("" for a non-binary right-hand side)
 		vars   map[string]bool
 		loop   int // id of the innermost enclosing loop, 0 = none
 		atomic bool
@@ -700,7 +702,11 @@ func c3CSETag(p c3Prog) string {
 						vs[x.V] = true
 					}
 				})
-				list = append(list, asg{t: s.T, e: s.E.String(), vars: vs, loop: loop, atomic: s.E.K != "bin"})
+				top := ""
+				if s.E.K == "bin" {
+					top = s.E.V
+				}
+				list = append(list, asg{t: s.T, e: s.E.String(), norm: c3OrderedOperands(s.E), top: top, vars: vs, loop: loop, atomic: s.E.K != "bin"})
 			}
 			inner := loop
 			if s.K == "while" || s.K == "for" {
@@ -712,6 +718,14 @@ func c3CSETag(p c3Prog) string {
 		}
 	}
 	walk(p, 0)
+	// two right-hand sides that are one expression up to the order of operands
+	for i := 0; i < len(list); i++ {
+		for j := i + 1; j < len(list) && !list[i].atomic; j++ {
+			if list[j].e != list[i].e && list[j].norm == list[i].norm {
+				return "operands-swapped(" + list[i].top + ")"
+			}
+		}
+	}
 	for i := 0; i < len(list); i++ {
 		if list[i].atomic {
 			continue
@@ -748,6 +762,23 @@ func c3CSETag(p c3Prog) string {
 		}
 	}
 	return ""
+}
+
+// c3OrderedOperands renders e with the two operands of every binary node in
+// lexical order, whatever the operator: two expressions with the same rendering
+// differ at most in the order of operands.
+func c3OrderedOperands(e *c3E) string {
+	if e == nil {
+		return ""
+	}
+	if e.K != "bin" {
+		return e.String()
+	}
+	l, r := c3OrderedOperands(e.A[0]), c3OrderedOperands(e.A[1])
+	if r < l {
+		l, r = r, l
+	}
+	return "(" + l + " " + e.V + " " + r + ")"
 }
 
 func c3SortedKeys(m map[string]bool) []string {
